@@ -14,6 +14,7 @@ import RbModel.Lemmas.Mem
 import RbModel.Props.C16
 import RbModel.Norm
 import RbModel.Lemmas.NormVS
+import RbModel.Lemmas.NormOwn
 import RbModel.Spec.CanonEquiv
 import RbModel.Lemmas.CanonRef
 import RbModel.Gen.NormRef
@@ -210,6 +211,55 @@ theorem C08_vs_round_chars (U : UData) (F : Font) (K : Consts) (n : Nat) (out in
       kept.filter (fun c => !U.isVS c) = ((inp.take n).map (·.cp)).filter (fun c => !U.isVS c) ∧
       (vsLoop U F K n out inp flags).2.1.map (·.cp) = (inp.drop n).map (·.cp) :=
   vsLoop_chars U F K n out inp flags hn
+
+/-- **The decomposition step of the normalizer loses no character, in any mode.**  Whatever
+    `decompose_current_character` (ot_shape_normalize.rs; `shortest` = the mode short-circuits here or not) emits for a
+    record — the record itself (own glyph, space / U+2011 fallback glyph or .notdef) or the pieces `decompose` found, at
+    whatever depth, with whatever subset of the pieces the font maps — is `a :: bs` where the full canonical
+    decomposition of the record's character is the full decomposition of `a` followed by `bs`: every second component
+    met on the way down is output, none is dropped, nothing is added.  (`FullDecomp`, Lemmas/Norm.lean: the chain of first
+    components to the end, the second components appended.)  Tied to the crate by the `norm-run-lattice` stream. -/
+theorem C08_decompose_current_conserves (U : UData) (F : Font) (K : Consts) (fuel : Nat) (shortest : Bool) (x : Info)
+    (flags : Nat) (l : List Info) (f : Nat) (h : decomposeCurrentCharacter U F K fuel shortest x flags = some (l, f))
+    (lx : List Nat) (hl : FullDecomp U x.cp lx) :
+    (∃ a bs la, l.map (·.cp) = a :: bs ∧ FullDecomp U a la ∧ lx = la ++ bs) ∧
+    (∀ i ∈ l, i.cluster = x.cluster ∧ i.mask = x.mask) := by
+  refine ⟨dcc_conserves U F K fuel shortest x flags l f h lx hl, ?_⟩
+  cases hd : (if !shortest || (F.glyph x.cp).isNone then decompose U F shortest fuel x.cp else some []) with
+  | none =>
+    unfold decomposeCurrentCharacter at h
+    simp only [hd] at h
+    cases h
+  | some r =>
+    cases r with
+    | nil =>
+      obtain ⟨g, p, f', h1, _⟩ := dcc_kept U F K fuel shortest x flags hd
+      rw [h1] at h
+      cases h
+      intro i hi
+      simp only [List.mem_singleton] at hi
+      subst hi
+      exact ⟨rfl, rfl⟩
+    | cons p ps =>
+      have h1 := dcc_decomposed U F K fuel shortest x flags (p :: ps) (by simp) hd
+      rw [h1] at h
+      have sp := outputChars_spec U K x (p :: ps) flags
+      have hl' : l = (outputChars U K x (p :: ps) flags).1 := by
+        have := congrArg (fun o => o.map Prod.fst) h
+        simpa using this.symm
+      rw [hl']
+      exact sp.2.2
+
+/-- non-vacuity: KANNADA VOWEL SIGN OO U+0CCB (= U+0CCA + U+0CD5, U+0CCA = U+0CC6 + U+0CC2) has the full decomposition
+    `0CC6 0CC2 0CD5`; on a font with the inner pieces but without the length mark U+0CD5 a mode that does not
+    short-circuit keeps the character whole -/
+example : FullDecomp genU 0xCCB [0xCC6, 0xCC2, 0xCD5] ∧
+    decompose genU { glyph := fun c => if c = 0xCCB ∨ c = 0xCC6 ∨ c = 0xCC2 then some 1 else none } false genFuel 0xCCB
+      = some [] := by
+  have d1 : genU.decomp 0xCCB = some (0xCCA, 0xCD5) := by decide +kernel
+  have d2 : genU.decomp 0xCCA = some (0xCC6, 0xCC2) := by decide +kernel
+  have d3 : genU.decomp 0xCC6 = none := by decide +kernel
+  exact ⟨FullDecomp.node d1 (FullDecomp.node d2 (FullDecomp.leaf d3)), by decide +kernel⟩
 
 end RbModel.Norm
 
